@@ -1086,7 +1086,9 @@ def main():
         part_a.sort(key=lambda m: (not (bin(m["mask"]).count("1") == 1 or m["mask"] == full),
                                    m["id"]))
         # Part C goes first: it is small and must never be the part the wall cap removes.
-        jobs = [("C", (base, so_paths, part_c[i:i + BATCH], deadline))
+        # It has a wall cap of its own, later than the one of parts A and B.
+        deadline_c = chk.t0 + (870 if chk.thorough else 50)
+        jobs = [("C", (base, so_paths, part_c[i:i + BATCH], deadline_c))
                 for i in range(0, len(part_c), BATCH)]
         jobs += [("AB", (indir_b, part_b[i:i + BATCH], deadline))
                  for i in range(0, len(part_b), BATCH)]
@@ -1164,6 +1166,7 @@ def main():
                   for mid, status, finds, _ in results if status == "ok" and
                   by_id[mid]["part"] == "A"}
     skipped = sum(1 for r in results if r[1] == "skipped-cap")
+    skipped_c = sum(1 for r in results if r[1] == "skipped-cap" and by_id[r[0]]["part"] == "C")
     results = [r for r in results if r[1] != "skipped-cap"]
     link_failed = {}
     judged = 0
@@ -1244,7 +1247,7 @@ def main():
         chk.machinery(f"{len(disagreements)} part C members: the observed set of files read "
                       f"contradicts what the family knows, e.g. {disagreements[:2]}")
     n_ab = len(results) - c_stats["members"]
-    if judged < n_ab * 0.9 or judged < 2:
+    if judged < n_ab * 0.9 or judged + c_stats["judged"] < 2:
         chk.machinery(f"only {judged} of {n_ab} members linked: {link_failed}")
     c_unexpected = sum(c_stats["link_failed"].values())
     if c_stats["members"] and (c_unexpected > 0.1 * c_stats["members"] or c_stats["judged"] < 2):
@@ -1275,7 +1278,8 @@ def main():
         "part_c_spelling": {
             "sites": SITES + ["all", "all-inner"], "spellings": SPELL_FMT,
             "variants": [spid_of(*v) for v in spell_variants()],
-            "members": c_stats["members"], "judged": c_stats["judged"],
+            "members": c_stats["members"] + skipped_c, "judged": c_stats["judged"],
+            "members_not_linked_because_of_wall_cap": skipped_c,
             "judged_by_spelling": c_stats["by_spelling"],
             "link_failed": c_stats["link_failed"],
             "expected_failures_same_file_linked_twice_under_two_names":
